@@ -205,6 +205,30 @@ func (c *Ctx) special(t *rapid.T, md protoreflect.MessageDescriptor, depth int, 
 		if len(c.AnyTargets) == 0 || depth >= c.MaxDepth {
 			return nil, false
 		}
+		if c.Extended && rapid.IntRange(0, 5).Draw(t, label+"anyunresolvable") == 0 {
+			// outside the domain (well-formedness only): a payload of a type nobody
+			// registered, with bytes, without, or nothing at all. The encoder must
+			// refuse it or still emit valid JSON.
+			name := rapid.SampledFrom([]string{"no.such.v1.Type", "", "type.googleapis.com/", "x"}).Draw(t, label+"anyunknown")
+			payload := rapid.SampledFrom([][]byte{nil, {}, {0x0a, 0x01, 0x61}, {0xff}}).Draw(t, label+"anyunknownbytes")
+			if md.FullName() == j5ref.PbAnyName {
+				if name != "" {
+					setField(m, "type_url", protoreflect.ValueOfString(j5ref.AnyURLPrefix+name))
+				}
+				if payload != nil {
+					setField(m, "value", protoreflect.ValueOfBytes(payload))
+				}
+			} else {
+				if name != "" {
+					setField(m, "type_name", protoreflect.ValueOfString(name))
+				}
+				if payload != nil {
+					setField(m, "proto", protoreflect.ValueOfBytes(payload))
+				}
+			}
+			c.cls("any-of-unresolvable-type")
+			return m, true
+		}
 		tgt := rapid.SampledFrom(c.AnyTargets).Draw(t, label+"anytarget")
 		// payloads stay inside the round-trip domain: the pre-encoded j5_json is
 		// copied through verbatim by the encoder, so it must itself be valid
